@@ -108,9 +108,13 @@ func c13RunD(rec *vcommon.Rec) {
 	cfg := c13DefaultCfg
 	var pumped []*c13Pumped
 	nextIdx := 1
+	var openAt func(idx int, role string) *c13Pumped
 	open := func(role string) *c13Pumped {
 		idx := nextIdx
 		nextIdx++
+		return openAt(idx, role)
+	}
+	openAt = func(idx int, role string) *c13Pumped {
 		s, p := n.open(idx, cfg, uint64(70+idx), role)
 		if p != "" {
 			rec.Violation("expiry:open-failed:"+c13Strip(p), desc, map[string]interface{}{"role": role, "problem": p})
@@ -263,6 +267,18 @@ func c13RunD(rec *vcommon.Rec) {
 			}
 		}
 		evaluate(pass)
+		if pass == 1 && c13IsReject(idleProbe()) {
+			// C was retired by the janitor. Its peer comes back from the same address and gets the slot again; only then does the
+			// server-side application give up on C's old connection and close it. The new session must not notice.
+			if g := pump(openAt(c.s.idx, "G: reuses the slot of C (retired by the janitor) from C's own address; C's server-side connection is closed afterwards")); g != nil {
+				if g.s.id != c.s.id {
+					rec.Note("c13d: G did not get C's slot", map[string]int{"C": c.s.id, "G": g.s.id})
+				} else {
+					rec.Stat("d_late_closes_of_expired_sessions_whose_slot_is_live_again", 1)
+				}
+				_ = c.s.user.Close()
+			}
+		}
 		if pass < passes {
 			pump(open(fmt.Sprintf("F%d: opened after pass %d", pass, pass)))
 		}
